@@ -58,6 +58,7 @@ class Reporter:
         self.chk = chk
         self.known = known_classes()
         self.by_class = {}
+        self.by_fam = {}
 
     def fail(self, cls, what, replay, found=True):
         self.by_class[cls] = self.by_class.get(cls, 0) + 1
@@ -66,7 +67,9 @@ class Reporter:
             if f["id"] not in self.chk.known_hit:
                 self.chk.known(f["id"], "class=%s: %s" % (cls, what))
         else:
-            if self.by_class[cls] <= 3:      # a few replays per class are enough
+            key = (cls, replay.get("family"))
+            self.by_fam[key] = self.by_fam.get(key, 0) + 1
+            if self.by_fam[key] <= 2 and len(self.by_fam) <= 12:      # a few replays per family are enough
                 self.chk.violation(("[class %s] " % cls if cls else "") + what, replay, found=found)
 
 
@@ -90,7 +93,7 @@ def hexz(m):
 
 def model_outcomes(exe, pairs):
     """pairs: list of (position, magnitude) -> list of (cls, work, x)"""
-    lines = ["F %s %s" % (p, hexz(m)) for p, m in pairs]
+    lines = [("B %s %s" % (p[len("bankcombo_"):], hexz(m))) if p.startswith("bankcombo_") else ("F %s %s" % (p, hexz(m))) for p, m in pairs]
     out = vlib.run_lines([exe], lines)
     res = []
     for o in out:
@@ -179,8 +182,6 @@ def classify_bin(case, res, mod, prof):
         return "deep_operator_chain"
     if fam == "elif_chain" and stack:
         return "long_elif_chain"
-    if fam in ("asm_const_nest", "asm_data_nest") and stack:
-        return "nested_asm_block"
     if fam in F.LEFT_RECURSIVE and stack:
         return "left_recursive_subrule"
     if mod is not None and mod[0] == "panic" and fam in PANIC_CLASS and (o == "panic" or (prof == "release" and o in ("ok", "error"))):
@@ -222,7 +223,17 @@ def run(chk):
 
     # ------------------------------------------------------------------ magnitude families: model predictions
     all_cases = F.magnitude_cases(mags)
-    modelled = [c for c in all_cases if c["family"] in MODELLED]
+    # #bankdef field combinations (size present/absent x outp far x placement x fill): magnitudes around every decision
+    # point of the supported output range (positions are 8 * m bits for #addr/#res, m bits for #outp/#align)
+    cm = set()
+    for c0 in (MB, MB // 8, F.U32_MAX, F.USIZE_MAX, F.USIZE_MAX // 8):
+        for dlt in (-17, -16, -2, -1, 0, 1, 2):
+            if c0 + dlt >= 0:
+                cm.add(c0 + dlt)
+    for k in ((0, 3, 8, 16, 24, 27, 28, 29, 30, 32, 33, 40, 48, 61, 63, 64, 70) if quick else range(0, 71)):
+        cm.add(1 << k)
+    all_cases += F.bank_combo_cases(sorted(cm))
+    modelled = [c for c in all_cases if c["family"] in MODELLED or c["family"].startswith("bankcombo_")]
     mods = model_outcomes(model, [(c["family"], c["param"]) for c in modelled])
     modmap = {(c["family"], c["param"]): mo for c, mo in zip(modelled, mods)}
     for c, mo in zip(modelled, mods):
@@ -240,7 +251,9 @@ def run(chk):
     # ------------------------------------------------------------------ lib-magnitude
     lib_cases = [c for c in modelled if not expensive(c["family"], c["param"], modmap[(c["family"], c["param"])])]
     lines = [lib_line(c) for c in lib_cases]
-    ans = {p: robust_lines([hb[p] + "/limits"], lines) for p in ("debug", "release")}
+    def limited(exe):   # the crate in-process, under the same address-space limit as the binary runs
+        return ["sh", "-c", 'ulimit -v %d; exec "$0"' % R.VMEM_KB, exe]
+    ans = {p: robust_lines(limited(hb[p] + "/limits"), lines) for p in ("debug", "release")}
     dist = {"ok": 0, "error": 0, "panic": 0}
     ndis = 0
     for i, c in enumerate(lib_cases):
@@ -264,7 +277,10 @@ def run(chk):
             continue
         # correspondence with the guard model (the spec predicate holds here: no panic, no divergence)
         mx = mo[2]
-        if d != mo[0] or (d == "ok" and mx is not None and dx is not None and mx != dx):
+        if d == "ok" and mo[0] == "error":
+            rep.fail(None, "%s with magnitude %d is ACCEPTED (debug and release) although the documented bound rejects it "
+                     "(guard model: error before any work)" % (fam, m), dict(replay, kind="bin"))
+        elif d != mo[0] or (d == "ok" and mx is not None and dx is not None and mx != dx):
             ndis += 1
             chk.violation("model/implementation correspondence broken for %s magnitude %d: crate %s x=%s, model %s x=%s" % (fam, m, d, dx, mo[0], mx),
                           dict(replay, kind="correspondence", theorems=["C19_no_overflow", "C19_guards_*"]), found=False)
@@ -292,7 +308,7 @@ def run(chk):
     for fam, m in slow_probes:
         if (fam, m) not in have:
             bin_cases += F.magnitude_cases([m], {fam})
-    extra = [(c["family"], c["param"]) for c in bin_cases if c["family"] in MODELLED and (c["family"], c["param"]) not in modmap]
+    extra = [(c["family"], c["param"]) for c in bin_cases if (c["family"] in MODELLED or c["family"].startswith("bankcombo_")) and (c["family"], c["param"]) not in modmap]
     for (k, mo) in zip(extra, model_outcomes(model, extra)):
         modmap[k] = mo
     nbin = 0
@@ -323,6 +339,8 @@ def run(chk):
                     ndis += 1
                     chk.violation("model predicts an overflow for %s %d, the %s binary exits %s" % (fam, m, prof, r["status"]),
                                   dict(replay, kind="correspondence"), found=False)
+            elif mo is not None and mo[0] == "error" and r["outcome"] == "ok":
+                rep.fail(None, "%s %d (%s build) is ACCEPTED although the documented bound rejects it (guard model: error before any work)" % (fam, m, prof), replay)
             elif mo is not None and mo[0] != r["outcome"]:
                 ndis += 1
                 chk.violation("model/binary correspondence broken for %s %d (%s): binary %s, model %s" % (fam, m, prof, r["outcome"], mo[0]),
@@ -356,7 +374,6 @@ def run(chk):
         chk.count(stream, n, **{"out_" + k: v for k, v in outc.items()})
     vlib.log("c19: nesting + cycles %.0fs" % (time.time() - t0))
 
-    # ------------------------------------------------------------------ depth-boundary: thresholds of the state machines
     PL, EL = 50, 25
     try:
         gen = open(os.path.join(vlib.COQ, "Gen", "Generated.v")).read()
@@ -365,6 +382,55 @@ def run(chk):
         EL = int(re.search(r"EVAL_RECURSION_DEPTH_MAX : Z := (\d+)", gen).group(1))
     except Exception:
         pass
+
+    # ------------------------------------------------------------------ bin-mixed: ALTERNATING nesting constructs
+    # every pair of nesting constructs (#if / #else blocks, asm blocks through every carrier directive, parentheses,
+    # brace blocks, calls, unary, ternary, slice index) interleaved, at counted depths around the limit and far above.
+    # Oracle = the depth state machine (pwalk over Limits.build): beyond the limit -> exit 1 WITH the limit diagnostic,
+    # within it -> no limit diagnostic; never a crash; so the limit is the same whatever construct interleaves.
+    CODE = {"if": 0, "else": 0, "asm": 3, "neg": 2}
+    far = [60, 200, 1000, 4000] + ([] if quick else [10000, 30000])
+    mcases = F.mixed_cases(PL, far)
+    # the two limits together: a line expression with k brackets around an asm block, r times (k < limit, r < limit)
+    for k, r in ((PL - 1, 2), (PL - 1, 5), (PL - 1, 24), (PL - 1, PL - 1), (PL - 1, PL), (PL - 1, PL + 1), (PL // 2, PL), (PL, 3)):
+        cyc = ["const"] + ["paren"] * k + ["asm"]
+        mcases.append({"family": "mixfill:%d_brackets+asm" % k, "param": r, "group": "mixed", "cycle": cyc,
+                       "files": {"main.asm": F.mixed_program(cyc, r)}, "args": []})
+    mlines = []
+    for c in mcases:
+        codes = [CODE.get(n, 1) for n in c["cycle"]] * c["param"]
+        if F.MIX[c["cycle"][0]][0] == "E":
+            codes = [1] + codes            # the `x = ` that carries the outermost expression
+        if F.MIX[c["cycle"][-1]][1] == "L":
+            codes = codes + [1]            # the innermost line `#d8 1` has an expression of its own
+        mlines.append("X %s 1" % ",".join(str(x) for x in codes))
+    mm = vlib.run_lines([model], mlines)
+    nmix, mixout = 0, {}
+    for prof in ("release", "debug"):
+        res = R.run_many(bins[prof], mcases, root, workers=14, tag="x" + prof[0])
+        for c, r, mo in zip(mcases, res, mm):
+            nmix += 1
+            chk.nontriv((c["family"], c["param"]))
+            mixout[r["outcome"]] = mixout.get(r["outcome"], 0) + 1
+            big = len(c["files"]["main.asm"]) > 20000
+            replay = {"kind": "bin", "profile": prof, "family": c["family"], "param": str(c["param"]), "args": [],
+                      "files": {"generator": "c19_families.mixed_program(%r, %d)" % (c["cycle"], c["param"])} if big else c["files"],
+                      "observed": {k: r[k] for k in ("outcome", "status", "signal", "wall", "rss_kb", "diag", "limit_diag")},
+                      "model": mo, "tail": r["tail"][-200:]}
+            if not R.spec_ok(r):
+                rep.fail(None, "%s x %d (%s build): %s (status %s, signal %s); depth state machine says %s" % (
+                    c["family"], c["param"], prof, r["outcome"], r["status"], r["signal"], mo), replay)
+            elif mo.startswith("ERR") and not (r["outcome"] == "error" and r["limit_diag"]):
+                rep.fail(None, "%s x %d (%s build): nesting beyond the documented limit is NOT answered with the limit diagnostic "
+                         "(exit %s, limit diagnostic %s)" % (c["family"], c["param"], prof, r["status"], r["limit_diag"]), replay)
+            elif mo.startswith("OK") and r["limit_diag"]:
+                rep.fail(None, "%s x %d (%s build): the limit diagnostic appears although the nesting is within the documented limit "
+                         "(the limit depends on the interleaved construct)" % (c["family"], c["param"], prof), replay)
+    chk.count("bin-mixed", nmix, **{"out_" + k: v for k, v in mixout.items()})
+    chk.cov["traces_validated_against_impl"] += nmix
+    vlib.log("c19: mixed nesting %d runs %.0fs" % (nmix, time.time() - t0))
+
+    # ------------------------------------------------------------------ depth-boundary: thresholds of the state machines
     same = lambda d: d
     table = [  # (family generator, model family, family-depth -> model-depth, depths to probe)
         ("paren", F.nest_paren, "paren", same, PL), ("unary_neg", F.nest_neg, "unary", same, PL),
@@ -377,6 +443,8 @@ def run(chk):
         ("fn_depth_1", lambda d: F.cycle_fn_bounded(1, d), "fn_calls", lambda d: d + 1, EL),
         ("fn_depth_3", lambda d: F.cycle_fn_bounded(3, d), "fn_calls", lambda d: d + 1, EL),
         ("asm_depth", lambda d: F.cycle_asm_bounded(1, d), "asm_calls", same, (EL + 1) // 2),
+        ("asm_const_nest", F.nest_asm_parse, "asm_nest", same, PL + 1), ("asm_data_nest", F.nest_asm_data, "asm_nest", same, PL + 1),
+        ("rule_fn_asm_depth", F.eval_mixed, "mixed_calls", same, EL // 3 + 1),
     ]
     bcases, bmodel = [], []
     for name, gen_f, mname, conv, centre in table:
@@ -390,6 +458,15 @@ def run(chk):
         for c, r, mo in zip(bcases, res, bm):
             nb += 1
             chk.nontriv(("boundary", c["family"], c["param"]))
+            if c["family"] in ("asm_const_nest", "asm_data_nest"):
+                # these programs are rejected at evaluation anyway (constants inside asm blocks): the parser's verdict
+                # is visible in the CLASS of the diagnostic
+                if R.spec_ok(r) and (r["limit_diag"] != mo.startswith("ERR")):
+                    rep.fail(None, "%s at depth %d (%s): limit diagnostic %s, depth state machine says %s" % (
+                        c["family"], c["param"], prof, r["limit_diag"], mo),
+                        {"kind": "bin", "profile": prof, "family": c["family"], "param": str(c["param"]), "args": [], "files": c["files"],
+                         "observed": {k: r[k] for k in ("outcome", "status", "signal", "wall", "rss_kb", "diag", "limit_diag")}, "model": mo})
+                continue
             want = "ok" if mo.startswith("OK") else "error"
             replay = {"kind": "bin", "profile": prof, "family": c["family"], "param": str(c["param"]), "args": [],
                       "files": c["files"], "observed": {k: r[k] for k in ("outcome", "status", "signal", "wall", "rss_kb", "diag")},
